@@ -16,10 +16,56 @@ func Bubble(t *testing.T, f func()) (err error) {
 	defer func() {
 		if e := recover(); e != nil {
 			err = fmt.Errorf("%v", e)
+			if strings.Contains(err.Error(), "deadlock") {
+				// the goroutines that were left behind are still there: name them
+				var where []string
+				for _, g := range blockedBubbleGoroutines() {
+					where = append(where, g)
+				}
+				if len(where) > 0 {
+					err = fmt.Errorf("%v; left behind: %s", e, strings.Join(where, " || "))
+				}
+			}
 		}
 	}()
 	synctest.Test(t, func(t *testing.T) { f() })
 	return nil
+}
+
+// blockedBubbleGoroutines summarises (top frames) the goroutines that are durably blocked inside a bubble.
+func blockedBubbleGoroutines() []string {
+	buf := make([]byte, 1<<22)
+	buf = buf[:runtime.Stack(buf, true)]
+	var out []string
+	for i, g := range strings.Split(string(buf), "\n\n") {
+		if i == 0 || !strings.Contains(g, "(durable), synctest bubble") && !strings.Contains(g, "synctest bubble") {
+			continue
+		}
+		lines := strings.Split(g, "\n")
+		var fr []string
+		for _, l := range lines[1:] {
+			if strings.HasPrefix(l, "\t") && len(fr) > 0 && len(fr) < 4 {
+				// file:line of the frame just named
+				l = strings.TrimSpace(l)
+				if k := strings.Index(l, " +0x"); k > 0 {
+					l = l[:k]
+				}
+				fr[len(fr)-1] += "@" + l[strings.LastIndex(l, "/")+1:]
+				continue
+			}
+			if !strings.HasPrefix(l, "\t") && len(fr) < 6 {
+				if k := strings.LastIndex(l, "("); k > 0 {
+					l = l[:k]
+				}
+				fr = append(fr, l[strings.LastIndex(l, "/")+1:])
+			}
+		}
+		out = append(out, lines[0]+" "+strings.Join(fr, " < "))
+		if len(out) >= 12 {
+			break
+		}
+	}
+	return out
 }
 
 // Settle lets virtual time pass and returns at a quiescent point.
